@@ -165,6 +165,9 @@ def run_case(case):
             exp = np.zeros(nc)
             if ntop:
                 exp[-ntop:] = 3
+            if ntop >= 6 and cls == "detect" and rng.random() < 0.6:
+                # a strongly noisy channel INSIDE the outside-brain block is still a noisy channel (and must be repaired, not ignored)
+                noisy = np.r_[noisy, nc - 1 - int(rng.integers(1, ntop - 2))]
             x[dead] = rng.standard_normal((dead.size, ns)) * 1e-7
             if rng.random() < 0.5:
                 x[noisy] += rng.standard_normal((noisy.size, ns)) * 200e-6
